@@ -31,6 +31,9 @@ def cell_inputs(c, rnd, full):
     base = q * step / 4.0
     if c.get("sig") == "smooth":          # smooth sigmoid: p = 0.1875*x + 0.5 (tanh: 2p - 1)
       base = ((base + 1.0) / 2.0 - 0.5) / 0.1875 if c["cls"] == "tanh" else (base - 0.5) / 0.1875
+    elif c.get("sig") in ("real", "realflag"):   # real sigmoid / tanh: invert the transcendental surrogate
+      pb = min(max(base if c["cls"] == "sigmoid" else (base + 1.0) / 2.0, 1e-6), 1.0 - 1e-6)
+      base = float(np.log(pb / (1.0 - pb))) * (1.0 if c["cls"] == "sigmoid" or c["sig"] == "real" else 0.5)
     elif c["cls"] == "sigmoid":
       base = 2.0 * base - 1.0
     base *= al
@@ -92,6 +95,8 @@ def main():
       elif c.get("hist") == "mode_before":
         Q.set_internal_sigmoid(c["sig"])
         q = make_fixed(c)
+      elif c.get("sig") == "realflag":      # use_real_sigmoid / use_real_tanh bypass the library-wide mode
+        q = make_fixed(c, **({"use_real_tanh": True} if c["cls"] == "tanh" else {"use_real_sigmoid": True}))
       else:
         q = make_fixed(c)
       full = (tier == "thorough") or c["bits"] <= 5
@@ -101,6 +106,13 @@ def main():
       y = call(q, x.reshape(shape)).reshape(-1)
       yy = call(q, y.reshape(shape)).reshape(-1)
       mn, mx = scalar(q.min()), scalar(q.max())
+      sv = None
+      if c.get("sig") in ("real", "realflag"):
+        # the transcendental surrogate is not transcribed: its value comes from the same TF kernel on the same tensor
+        # (sigmoid for the library-wide mode and use_real_sigmoid, tanh for use_real_tanh); everything after it is
+        # judged exactly
+        xt = tf.constant(x.reshape(shape))
+        sv = (tf.tanh(xt) if (c["sig"] == "realflag" and c["cls"] == "tanh") else tf.sigmoid(xt)).numpy().reshape(-1)
       if ci % 5 == shard % 5:
         # the same values handed over as float64 / as a plain nested list: the quantizer casts to floatx first
         alt = np.asarray(q(tf.constant(x.reshape(shape).astype(np.float64))), dtype=np.float64).reshape(-1)
@@ -113,11 +125,14 @@ def main():
     finally:
       pass
     dmn, dmx = dy(mn), dy(mx)
-    for a, b, d in zip(x, y, yy):
+    for j, (a, b, d) in enumerate(zip(x, y, yy)):
       if not (np.isfinite(b) and np.isfinite(d)):
         errors.append({"k": "nonfinite", "c": ci + 1, "x": float(a)})
         continue
-      events.append({"k": "call", "c": ci + 1, "x": dy(a), "y": dy(b), "yy": dy(d), "mn": dmn, "mx": dmx})
+      ev = {"k": "call", "c": ci + 1, "x": dy(a), "y": dy(b), "yy": dy(d), "mn": dmn, "mx": dmx}
+      if sv is not None:
+        ev["s"] = dy(sv[j])
+      events.append(ev)
     # range() reporter
     try:
       if not hasattr(q, "range"):
